@@ -106,9 +106,9 @@ CHECKS = {
     ),
     "C15": dict(
         level="model_checking",
-        technique="stateless exploration of thread interleavings with iterative preemption bounding (own baton scheduler over real OS threads, scheduling points in harness-owned user functions); Send+Sync half decided by the type checker in a probe crate",
-        text="13 workloads of 2-5 threads sharing one Arc<Node> and one Arc<HashMapContext>, built afresh for every execution (same tree, trees of nesting depth 50-100, different trees, failing and succeeding evaluations mixed, alternating user functions, string-level evaluation, per-thread mutable clones, clone/format/iterate while evaluating); every schedule with up to 2 preemptions (quick), up to 3 and unbounded for 2 threads (thorough); each thread's result and own call log must equal its sequential run. The compile probe instantiates Send + Sync for the 8 public types.",
-        note="Trusted: #![forbid(unsafe_code)] (asserted) for the absence of data races proper; races whose window contains no scheduling point and weak-memory effects are not explored. loom/shuttle are not used: evalexpr contains no sync primitive to intercept and both would make correct thread-local state look racy.",
+        technique="stateless exploration of thread interleavings with iterative preemption bounding, by two engines: an own baton scheduler over real OS threads (scheduling points in harness-owned user functions), and loom (DPOR, preemption-bounded) on a copy of the sources whose std::sync primitives are mechanically rewritten to loom's, so that library-internal atomics and locks are scheduling points too; Send+Sync half decided by the type checker in a probe crate",
+        text="13 workloads of 2-5 threads sharing one Arc<Node> and one Arc<HashMapContext>, built afresh for every execution (same tree, trees of nesting depth 50-100, different trees, failing and succeeding evaluations mixed, alternating user functions, string-level evaluation, per-thread mutable clones, clone/format/iterate while evaluating); every schedule with up to 2 preemptions (quick), up to 3 and unbounded for 2 threads (thorough); each thread's result and own call log must equal its sequential run. Loom pass: 10 workloads of 2-3 threads (constant subexpressions in a fresh shared tree, both threads inside the same user function, builtins while the other thread is inside a user function, a shadowed builtin, a failing thread, nested calls, unknown names, typed views / printing / iterators / clone, builtins disabled), preemption bound 2 (quick) / 2, 3, unbounded (thorough); after the join the shared objects must still answer sequentially. The compile probe instantiates Send + Sync for the 8 public types.",
+        note="Trusted: #![forbid(unsafe_code)] (asserted) for the absence of data races proper; the pinned tree contains no synchronisation primitive, so on it loom only confirms the baton result; the loom pass exists for changes that add atomics, locks, thread-locals or statics (loomify rewrites them; Once/OnceLock/LazyLock/Arc stay on std and invisible). If the rewritten copy does not build the pass reports itself not applicable (never a verdict); capped or loom-aborted runs are counted, never reported as violations.",
         design_ref="DESIGN.md section 4, C15",
     ),
     "C16": dict(
@@ -164,13 +164,19 @@ def main():
                 "name": "evx-mc",
                 "path": "/verif/mc",
                 "serves_properties": [p for p in props if p in CHECKS and CHECKS[p].get("engine", "evx-mc") == "evx-mc"],
-                "kind_free_text": "Rust harness (stable toolchain, path dependency on /repo): bounded exhaustive enumeration of token sequences / ASTs / operand matrices / operation histories / schedules on the real code, compared with reference models in mc/src/refmodel; explicit-state search with stateright for C04; own deviation-bounded scheduler over real OS threads for C15",
+                "kind_free_text": "Rust harness (stable toolchain, path dependency on /repo): bounded exhaustive enumeration of token sequences / ASTs / operand matrices / operation histories / schedules on the real code, compared with reference models in mc/src/refmodel; explicit-state search with stateright for C04; own deviation-bounded scheduler over real OS threads for C15 (plus the loom engine below)",
             },
         ],
         "checks": checks,
         "not_applicable": na,
         "notes": "Exit protocol of every command: 0 = held on everything explored (KNOWN-FINDING lines possible), 1 = VIOLATION property=<id> replay=<path>, 2 = MACHINERY-ERROR (build failure, engine crash, vacuity guard not reached) which is never a verdict. Known findings: /verif/known_findings.txt. Detection demonstrations: /verif/seeded/.",
     }
+    manifest["engines"].append({
+        "name": "evx-mc-loom",
+        "path": "/verif/mc-loom",
+        "serves_properties": ["C15"],
+        "kind_free_text": "loom 0.7 model checker (exhaustive DPOR exploration with a preemption bound) over a mechanically rewritten copy of /repo's sources (tools/loomify.py writes it to /verif/.target/loom-src on every run); its result is merged into C15's evidence as a secondary profile",
+    })
     if any(CHECKS[p].get("engine") == "evx-mc-serde" for p in CHECKS):
         manifest["engines"].append({
             "name": "evx-mc-serde",
